@@ -79,11 +79,26 @@ func Harness_C14_ListRoundTrip() {
 	mt := vTypes[vChoice("msgtype", len(vTypes))]
 	sig := vSigs[mt]
 	fields := wamp.List{}
+	idVals := map[int]wamp.ID{}
 	for i := 0; i < len(sig); i++ {
 		nm := "f" + string(rune('0'+i))
 		switch sig[i] {
 		case 'i':
-			fields = append(fields, wamp.ID(vUint64(nm)))
+			// ids arrive as wamp.ID from in-process peers and as uint64 / int64
+			// from the decoders; every value of the WAMP id range [0, 2^53]
+			// must be accepted from any carrier
+			v := vUint64(nm)
+			switch vChoice(nm+".carrier", 3) {
+			case 0:
+				fields = append(fields, wamp.ID(v))
+			case 1:
+				vAssume(v <= 1<<53)
+				fields = append(fields, v)
+			case 2:
+				vAssume(v <= 1<<53)
+				fields = append(fields, int64(v))
+			}
+			idVals[i] = wamp.ID(v)
 		case 'u':
 			fields = append(fields, wamp.URI(vString(nm, 2)))
 		case 's':
@@ -145,6 +160,10 @@ func Harness_C14_ListRoundTrip() {
 				vCover("kwargs-without-args")
 				continue
 			}
+		}
+		if sig[i] == 'i' {
+			vAssert("id-field-round-trips-from-any-carrier", b == any(idVals[i]))
+			continue
 		}
 		vAssert("field-round-trips", vValEq(a, b))
 	}
